@@ -22,7 +22,7 @@ var idiomNames = []string{
 	"idiom-append-alias", "idiom-struct-self-assign", "idiom-pointer-swap",
 	"idiom-named-result-fresh", "idiom-chan-recv", "idiom-assert-fail-zero",
 	"idiom-range-int-bound", "idiom-method-value-receiver", "idiom-named-results-in-place",
-	"idiom-switch-empty",
+	"idiom-switch-empty", "idiom-reference-values-saved",
 }
 
 func (g *Gen) idiomHelper(name, src string) {
@@ -321,6 +321,47 @@ func (g *Gen) idiomStmt(o *out, d int) {
 		o.line("default:")
 		o.line("\tfmt.Println(\"isd\", %s)", x)
 		o.line("}")
+	case 16: // slices, maps, pointers and functions saved by defer, return and append
+		g.idiomHelper("idSwapS", "func idSwapS(a, b []int) (x, y []int) {\n\tx, y = a, b\n\treturn y, x\n}\n")
+		g.idiomHelper("idRotP", "func idRotP(a, b, c *int) (x, y, z *int) {\n\tx, y, z = a, b, c\n\treturn y, z, x\n}\n")
+		g.idiomHelper("idSwapM", "func idSwapM(a, b map[string]int) (x, y map[string]int) {\n\tx, y = a, b\n\treturn y, x\n}\n")
+		sv, mv, x, y, z, pv, fv := g.name("v"), g.name("v"), g.name("v"), g.name("v"), g.name("v"), g.name("v"), g.name("cl")
+		switch g.n(0, 2, "rvform") {
+		case 0:
+			o.line("func() {")
+			o.line("\t%s, %s := []int{%d, %d}, map[string]int{\"k\": %d}", sv, mv, a, b, c)
+			o.line("\t%s, %s := %d, %d", x, y, a, b)
+			o.line("\t%s := &%s", pv, x)
+			o.line("\t%s := func() { fmt.Println(\"rf first\") }", fv)
+			o.line("\tdefer func(s []int, m map[string]int, p *int) { fmt.Println(\"rd\", s, m, *p) }(%s, %s, %s)", sv, mv, pv)
+			o.line("\tdefer fmt.Println(\"rg\", %s, len(%s), %s == &%s)", sv, mv, pv, x)
+			o.line("\tdefer %s()", fv)
+			o.line("\t%s = append(%s, %d)", sv, sv, c)
+			o.line("\t%s = map[string]int{}", mv)
+			o.line("\t%s = &%s", pv, y)
+			o.line("\t%s = func() { fmt.Println(\"rf second\") }", fv)
+			o.line("\tfmt.Println(\"rb\", %s, len(%s), *%s)", sv, mv, pv)
+			o.line("}()")
+		case 1:
+			o.line("{")
+			o.line("\t%s, %s := idSwapS([]int{%d}, []int{%d, %d})", sv, mv, a, b, c)
+			o.line("\t%s, %s, %s := %d, %d, %d", x, y, z, a, b, c)
+			o.line("\tp1, p2, p3 := idRotP(&%s, &%s, &%s)", x, y, z)
+			o.line("\tm1, m2 := idSwapM(map[string]int{\"a\": %d}, map[string]int{\"b\": %d})", a, b)
+			o.line("\tfmt.Println(\"rs\", %s, %s, *p1, *p2, *p3, m1, m2)", sv, mv)
+			o.line("}")
+		default:
+			o.line("{")
+			o.line("\t%s, %s, %s := %d, %d, %d", x, y, z, a, b, c)
+			o.line("\t%s := []*int{&%s, &%s, &%s}", pv, x, y, z)
+			o.line("\t%s = append(%s[:1], %s[2], %s[1])", pv, pv, pv, pv)
+			o.line("\t%s := [][]int{{%d}, {%d, 0}, {%d, 0, 0}}", sv, a, b, c)
+			o.line("\t%s = append(%s[:0], %s[2], %s[0], %s[1])", sv, sv, sv, sv, sv)
+			o.line("\t%s := []map[string]int{{\"a\": %d}, {\"b\": %d}, {\"c\": %d}}", mv, a, b, c)
+			o.line("\t%s = append(%s[:1], %s[2], %s[1])", mv, mv, mv, mv)
+			o.line("\tfmt.Println(\"ra\", *%s[0], *%s[1], *%s[2], %s, %s)", pv, pv, pv, sv, mv)
+			o.line("}")
+		}
 	default: // swaps through pointers and parentheses
 		p, q, x, y := g.name("v"), g.name("v"), g.name("v"), g.name("v")
 		o.line("{")
